@@ -298,6 +298,49 @@ fn mixed_stores(threads: usize, rounds: usize, yield_every: u64) -> Result<(u64,
     Ok(((rounds * 1000 + (threads - 1) * per * 4) as u64, format!("1 storing thread x {} stores read back, {} threads x {per} x 4 compound assignments: every store was seen", rounds * 1000, threads - 1)))
 }
 
+/// a loop polling a cell that another thread stores to: once the storing thread has finished, the loop sees the store at
+/// its next condition test. No clock is involved: the loop counts its iterations in a host-built cell, the main thread
+/// notes that count right after the store completed, and the loop may run at most a small slack beyond it (it is bounded
+/// by `big` iterations anyway, so a loop that never sees the store ends with exactly `big`).
+fn polling(variant: usize, yield_every: u64) -> Result<(u64, String), String> {
+    let big: i64 = 3_000_000;
+    let (flag_ty, zero, one, cond) = [
+        (Type::Float, Variable::Float(0.0), "1.0", "*flag == 0.0"),
+        (Type::Bool, Variable::Bool(false), "true", "*flag == false"),
+        (Type::String, Variable::String(Arc::from("")), "\"go\"", "*flag == \"\""),
+        (Type::Float, Variable::Float(0.0), "1.0", "0.0 >= *flag"),
+    ][variant % 4]
+        .clone();
+    let tname = flag_ty.to_string();
+    let waiter = parse_function(&format!("(flag: mut {tname}, k: mut int, big: int) -> int {{ while {cond} && *k < big {{ k += 1; }} return *k }}")).ok_or("waiter rejected")?;
+    let setter = parse_function(&format!("(flag: mut {tname}) -> int {{ flag = {one}; return 1 }}")).ok_or("setter rejected")?;
+    let flag = Arc::new(Mut { var_type: flag_ty, variable: RwLock::new(zero) });
+    let k = Arc::new(Mut { var_type: Type::Int, variable: RwLock::new(Variable::Int(0)) });
+    let (f2, k2) = (flag.clone(), k.clone());
+    let a = std::thread::Builder::new().stack_size(64 << 20).spawn(move || -> Result<i64, String> {
+        verif::set_yield_every(yield_every);
+        let code = waiter.create_call(vec![Variable::Mut(f2), Variable::Mut(k2), Variable::Int(big)]).map_err(|e| format!("{e}"))?;
+        match real::guarded(|| code.exec()) {
+            Ok(Ok(Variable::Int(v))) => Ok(v),
+            Ok(other) => Err(format!("waiter got {other:?}")),
+            Err(p) => Err(format!("waiter panicked at {}: {}", p.site(), p.short_msg())),
+        }
+    }).map_err(|e| format!("spawn: {e}"))?;
+    // wait (in iterations of the waiter, not in time) until the waiter is inside its loop
+    let read_k = |k: &Arc<Mut>| k.variable.read().map(|g| g.as_int().copied().unwrap_or(0)).unwrap_or(0);
+    while read_k(&k) < 1000 && !a.is_finished() {
+        std::thread::yield_now();
+    }
+    let code = setter.create_call(vec![Variable::Mut(flag.clone())]).map_err(|e| format!("{e}"))?;
+    real::guarded(|| code.exec()).map_err(|p| format!("setter panicked: {}", p.short_msg()))?.map_err(|e| format!("setter failed: {e:?}"))?;
+    let at_store = read_k(&k);
+    let fin = a.join().map_err(|_| "waiter thread died".to_string())??;
+    if at_store < big - 500_000 && fin > at_store + 500_000 {
+        return Err(format!("a loop polling `{cond}` went on for {} iterations after another thread's store `flag = {one}` had completed (it had made {at_store} iterations then, {fin} at its end{}): the store never became visible to it", fin - at_store, if fin == big { ", stopped only by its iteration bound" } else { "" }));
+    }
+    Ok((fin as u64 + 1, format!("a loop polling `{cond}` saw another thread's store {} iterations after it completed", fin - at_store.min(fin))))
+}
+
 /// one shared function value whose *sites* (type tests, type arms, value arms, type filters, operators over unions) see
 /// values of a different runtime type from every thread at the same time: anything an implementation remembers per
 /// site (inline caches, memoised verdicts) must not leak between threads. Each call's result is compared with the
@@ -745,6 +788,7 @@ pub fn child(spec: &str) {
             "printing" => printing_nested(threads.max(2), size, yld),
             "sites" => shared_sites(threads.max(2), size, yld),
             "mixed" => mixed_stores(threads.max(2), size, yld),
+            "polling" => polling(size, yld),
             r if r.starts_with("cross") => cross_cells(r[5..].parse().unwrap_or(0), threads.max(2), size, yld),
             other => Err(format!("unknown scenario {other}")),
         }
@@ -778,7 +822,8 @@ pub fn run(cfg: &Cfg, rep: &mut Report) {
         }
         let threads = *rng.pick(&[2usize, 2, 3, 4, 4, 8, 16]);
         let yld = *rng.pick(&[0usize, 0, 1, 2, 5]);
-        let (scenario, size) = match rng.below(26) {
+        let (scenario, size) = match rng.below(28) {
+            26 | 27 => ("polling".to_string(), rng.below(4)),
             24 | 25 => ("mixed".to_string(), *rng.pick(&[1usize, 4, 8])),
             22 | 23 => ("sites".to_string(), *rng.pick(&[100usize, 1000, 4000])),
             20 | 21 => (format!("cross{}", rng.below(12)), *rng.pick(&[50usize, 500, 5000])),
